@@ -62,6 +62,7 @@ def drive(cfg, vals, symbolic):
     v = dict(vals)
     v.update(c04.FIXED)
     v['economics.PTCDuration'] = cfg['L']      # (a credit lasting longer than the plant raises IndexError on the pinned tree: robustness, not C11)
+    v['surfaceplant.piping_length'] = 5.0      # a transmission pipeline is present (its correlation cost is not a cost input: totals are user-fixed)
     econ.install(m, v)
     econ.run_econ(m, symbolic=symbolic)
     return m
